@@ -24,22 +24,28 @@ TIE_DETAIL = ('translator: translate/gen_c10.py regenerates Gen/C10.v (41 defini
 ASSUMPTIONS = ['single-contig kernels get_pileup / get_boolean_mask / merge_intervals are modelled by coverage counting '
                'and the running-maximum merge (their correctness is property C08); npstructures run-length arrays are '
                'read through to_array()',
-               'intervals with start > stop are not generated; zero-length intervals are not used for array/sequence '
-               'extraction (npstructures np.where fails on them irrespective of chromosomes)',
-               'merged() is exercised on input sorted by (chromosome, start) as merge_intervals requires']
-PARTIAL = ['C10_merged_pinned_partial: the pinned GenomicIntervalsFull.merged(distance>0) equals the per-chromosome merge only when '
-           'no chromosome name contains "_" and every chromosome carries at least one interval; merged() with distance 0 '
-           'always raises (C10_merged_pinned_refuted, C10_merged_pinned_distance_refuted); the unrestricted positive theorem '
-           'C10_merged_local is about the repaired algorithm model_merged_fixed (notes/C10.fix-1.diff)',
-           'C10_geo_merge_pinned_refuted / _silent_refuted: Geometry.merge_intervals fuses across a chromosome boundary; no '
-           'positive theorem for the pinned Geometry.merge_intervals and Geometry.sort (to_local_interval route) — correspondence only',
-           'C10_pileup_negative_start_refuted: C10_pileup_local / C10_mask_local / C10_extract_local need 0 <= start, which the '
-           'pinned bounds checks do not enforce (notes/C10.fix-2.diff adds the check)',
-           'C10_location_pinned_partial: get_location is right except for (unstranded, "stop") (C10_location_pinned_refuted)',
-           'C10_seq_partial: stranded sequence extraction is right unless every interval has length 1 (C10_seq_refuted)',
-           'ignored-chromosome filtering (mask_data), Geometry.sort and the coordinate lists of OCoords have no theorem of their '
-           'own: they are covered by the correspondence and, for the coordinates, pointwise by C10_offset_bijection']
+               'intervals with start > stop are not generated (C10_model_ok_spec_ok assumes start <= stop); zero-length '
+               'intervals are not used for array/sequence extraction (npstructures np.where fails on them irrespective of '
+               'chromosomes)',
+               'merged() is exercised on input sorted by (chromosome, start) as merge_intervals requires',
+               'the streamed classes (GenomicIntervalsStreamed, GenomicArrayNode, GenomicLocationStreamed) are outside this '
+               'property (its observe_at lists the in-memory API; streams are C11/C12)',
+               'translator reading: element-wise NumPy expressions per element; np.any/np.all guards as per-element '
+               'predicates; np.searchsorted as a call of the model function with the side passed on']
+PARTIAL = ['C10_clip_partial / C10_clip_one_sided_refuted: GenomicIntervalsFull.clip equals the single-contig clip (two-sided since '
+           'fc449e4) only for intervals reaching their chromosome range (start <= size, 0 <= stop); an interval entirely outside '
+           'comes out inverted — outside the quantifier (intervals of a chromosome), not generated; notes/C10.fix-4.diff',
+           'C10_seq_partial: stranded sequence extraction is right unless every interval has length 1 (C10_seq_refuted; known finding)',
+           'History (code before fix-1/2/3, definitions *_pinned kept): C10_merged_pinned_partial + *_refuted, '
+           'C10_pileup_negative_start_refuted, C10_location_pinned_partial/_refuted',
+           'C10_sorted / C10_geo_sort prove permutation + order, not stability (ties are indistinguishable in the observed columns)',
+           'list-level NumPy (cumsum offsets table, searchsorted, lexsort, run-length slicing), sequence lookup and the C08 kernels '
+           'are tied by correspondence only (not translated)']
 PER_FILE = 40
+# GenomicIntervalsFull.clip on an interval lying entirely outside its chromosome ([5,7) on size 3 -> [5,3) at HEAD) is
+# outside the property's quantifier (intervals of a chromosome) and is only generated once notes/C10.fix-4.diff is
+# committed (then set this to True and switch m_clip_start / m_clip_stop in Model/C10.v).
+CLIP_OUTSIDE_FULL = False
 
 ERR = {'AssertionError': 1, 'AttributeError': 2, 'IndexError': 3, 'GenomeError': 4, 'Exception': 5,
        'ComputationException': 6}
@@ -111,8 +117,8 @@ def _ops_for(rng, genome, filt, es, es_all, shuffled, locs, tier):
         add(['pileup', geo], base)
         add(['mask', geo], base)
         wide = [[c, s - rng.choice([0, 1, 2]), t + rng.choice([0, 1, 2]), f] for c, s, t, f in base]
-        if geo and base:
-            # Geometry.clip also pulls an interval lying entirely outside its chromosome back into [0, size]
+        if (geo or CLIP_OUTSIDE_FULL) and base:
+            # the single-contig clip pulls an interval lying entirely outside its chromosome back into [0, size]
             c = rng.choice(base)[0]
             wide.append([c, genome[c][1] + 1, genome[c][1] + 3, 1] if rng.random() < 0.5 else [c, -3, -1, 1])
         add(['clip', geo], wide)
@@ -468,43 +474,18 @@ def _vis(case):
 
 
 def finding(case, o):
+    """id of the known finding whose signature this failing case has — exactly the listed failure mode, nothing wider
+    (the model predicts the same outcome in these modes, so a case that also disagrees with the model is not one)."""
     op = case['op']
     es = _vis(case)
     g = case['genome']
-    inb = all(0 <= e[1] <= e[2] <= g[e[0]][1] and e[1] < g[e[0]][1] for e in es)
-    if op[0] == 'merged' and op[1] == 0 and op[2] == 0 and o.get('exc') == 'AttributeError' and inb:
-        return 'C10-merged-default-attributeerror'
-    if op[0] == 'merged' and op[1] == 0 and op[2] > 0 and inb and o.get('t') == 'err':
-        if not es and o.get('exc') == 'IndexError':
-            return 'C10-merged-distance-empty-chromosome'
-        if o.get('exc') == 'AttributeError':
-            inc = _included(g, case['filter'])
-            used = {e[0] for e in es}
-            if any(i not in used for i in inc):
-                return 'C10-merged-distance-empty-chromosome'
-        if o.get('exc') in ('GenomeError', 'StopIteration') and case['filter'] == 'keep' and any('_' in n for n, s in g):
-            return 'C10-merged-distance-underscore-name'
-    if op[0] == 'merged' and op[1] == 0 and op[2] > 0 and o.get('t') == 'ivs' and case['filter'] == 'keep' \
-            and any('_' in g[e[0]][0] for e in es):
-        return 'C10-merged-distance-underscore-name'
-    if op[0] == 'seq' and op[1] == 1 and o.get('exc') == 'AttributeError' and es and all(e[2] - e[1] == 1 for e in es):
+    if op[0] == 'seq' and op[1] == 1 and o.get('exc') == 'AttributeError' and "'_shape'" in o.get('msg', '') \
+            and es and all(e[2] - e[1] == 1 for e in es):
         return 'C10-seq-stranded-all-length-one'
-    if op[0] == 'merged' and op[1] == 1 and inb and (o.get('exc') == 'AssertionError' or o.get('t') == 'ivs'):
-        # two intervals on consecutive chromosomes, the first ending within d of the chromosome end region
-        d = op[2]
-        inc = _included(g, case['filter'])
-        for a in es:
-            for b in es:
-                if a[0] in inc and b[0] in inc and inc.index(b[0]) > inc.index(a[0]):
-                    gap = (g[a[0]][1] - a[2]) + b[1] + sum(g[i][1] for i in inc[inc.index(a[0]) + 1:inc.index(b[0])])
-                    if gap <= d:
-                        return 'C10-geometry-merge-across-boundary'
-    if op[0] == 'location' and op[1] == 0 and op[2] == 1 and o.get('t') == 'pos':
-        if [p for c, p in o['l']] == [e[1] for e in es]:
-            return 'C10-get-location-stop-unstranded'
-    if (op[0] in ('pileup', 'mask', 'extract') or (op[0] in ('sorted', 'merged') and op[1] == 1)) and o.get('t') != 'err' \
-            and any(e[1] < 0 for e in es):
-        return 'C10-negative-start-accepted'
+    if op[0] == 'clip' and op[1] == 0 and o.get('t') == 'ivs' and any(e[1] > g[e[0]][1] or e[2] < 0 for e in es):
+        exp = [[e[0], max(0, e[1]), min(g[e[0]][1], e[2])] for e in es]      # the one-sided formula
+        if o['l'] == exp:
+            return 'C10-clip-interval-outside'
     return None
 
 
